@@ -61,7 +61,7 @@ pub struct Case17 {
     pub expect: String,
 }
 
-const SPECIAL: [&str; 6] = ["é", "ß€", "😀", "\u{fffd}", "aé😀b€", "Ã¤"];
+const SPECIAL: [&str; 8] = ["é", "ß€", "😀", "\u{fffd}", "aé😀b€", "Ã¤", "a\u{feff}b", "\u{fffe}\u{ffff}x"];
 
 fn documents(g: &Grammar, thorough: bool) -> Vec<(String, String)> {
     let mut out = Vec::new();
@@ -111,6 +111,21 @@ pub fn build(g: &Grammar, thorough: bool) -> Vec<Case17> {
                     let t2 = format!("{lead}{text}{}", " ".repeat(pad));
                     out.push(Case17 { label: format!("{label} with leading {lname} as {enc} pad {pad}"), class: format!("valid:lead-{lname}:{enc}"), bytes: encode(&t2, enc), expect: t2 });
                 }
+            }
+        }
+        // a UTF-16 / UTF-32 file whose length is not a whole number of code units (one byte appended / the last byte cut off)
+        // is not valid in that encoding: it is read as UTF-8 if the bytes happen to be valid UTF-8, else as Latin-1
+        for enc in ["utf16le", "utf16le+bom", "utf16be", "utf16be+bom", "utf32le", "utf32le+bom", "utf32be", "utf32be+bom"] {
+            let full = encode(text, enc);
+            for (how, bytes) in [("one byte appended", { let mut b = full.clone(); b.push(0x20); b }), ("last byte cut off", full[..full.len() - 1].to_vec()), ("three bytes appended", { let mut b = full.clone(); b.extend([0x20, 0x20, 0x20]); b })] {
+                if enc.starts_with("utf16") && how == "three bytes appended" {
+                    continue;
+                }
+                let expect = match String::from_utf8(bytes.clone()) {
+                    Ok(s) => s.strip_prefix('\u{feff}').map(|x| x.to_string()).unwrap_or(s),
+                    Err(_) => latin1(&bytes),
+                };
+                out.push(Case17 { label: format!("{label} as {enc}, {how}"), class: format!("invalid:{}-broken-length", enc.trim_end_matches("+bom")), bytes, expect });
             }
         }
         // not valid Unicode -> read as Latin-1 as a whole
